@@ -135,6 +135,41 @@ func join(a, b *Node, c1, c2 net.Conn) error {
 	return nil
 }
 
+// JoinAs connects a and b like Join, but with caller-chosen peer infos and strictness on both sides
+// (what a dial from the peer book / a must-connect dial / an inbound accept hand to AddPeer) and
+// returns both AddPeer results separately. The conns are closed when either side fails.
+func JoinAs(a, b *Node, infoA, infoB *lib.PeerInfo, strictA, strictB bool) (errA, errB error, timedOut bool) {
+	c1, c2 := newConnPair("a", "b")
+	type res struct {
+		side int
+		err  error
+	}
+	out := make(chan res, 2)
+	go func() { out <- res{0, toErr(a.AddPeer(c1, infoA, false, strictA))} }()
+	go func() { out <- res{1, toErr(b.AddPeer(c2, infoB, false, strictB))} }()
+	t := time.NewTimer(Watchdog)
+	defer t.Stop()
+	for i := 0; i < 2; i++ {
+		select {
+		case r := <-out:
+			if r.side == 0 {
+				errA = r.err
+			} else {
+				errB = r.err
+			}
+			if r.err != nil {
+				_ = c1.Close()
+				_ = c2.Close()
+			}
+		case <-t.C:
+			_ = c1.Close()
+			_ = c2.Close()
+			return errA, errB, true
+		}
+	}
+	return errA, errB, false
+}
+
 // Received is one message taken from an inbox.
 type Received struct {
 	Topic  lib.Topic
